@@ -40,20 +40,32 @@ def run(ctx):
             violations.append({"sig": None, "what": f"bus delivered out of order / wrong payload / skipped events after an accepted seek (case {i}: {cases[i]['ops'][:12]})", **rep})
         elif not c_ok:
             corr.append({"what": f"corr_sqlite_bus: model log != plugins on case {i}: {cases[i]['ops'][:12]}", **rep})
-    hist = {"seek_ok": 0, "seek_refused": 0, "iters": 0, "delivered": 0, "purges": 0}
+    # the producer keeps writing while a consumer iterates: none of its sends may be refused
+    for i, (case, (obs, g, _)) in enumerate(zip(cases, res)):
+        for ob in obs:
+            if ob[0] == "aborted":
+                violations.append({"sig": None, "replay_kind": "bus_case", "case": cases[i], "observed": obs,
+                                   "what": f"operation #{ob[1]} ({ob[2]}) of the history raised {ob[3]} (case {i})"})
+            if ob[0] == "iter" and len(ob) > 3 and ob[3]:
+                violations.append({"sig": None, "replay_kind": "bus_case", "case": cases[i], "observed": obs,
+                                   "what": f"while a consumer was in the middle of an iteration: {ob[3]} (case {i})"})
+    hist = {"seek_ok": 0, "seek_refused": 0, "iters": 0, "delivered": 0, "purges": 0, "sends_during_an_iteration": 0}
     seen = set()
     for case, (obs, g, _) in zip(cases, res):
         for op, ob in zip(case["ops"], obs):
+            if ob[0] in ("truth", "purges", "aborted"):
+                break
             if ob[0] == "seek":
                 hist["seek_ok" if ob[1] == "ok" else "seek_refused"] += 1
             if ob[0] == "iter":
                 hist["iters"] += 1
                 hist["delivered"] += len(ob[1])
+                hist["sends_during_an_iteration"] += ob[2] if len(ob) > 2 else 0
             hist["purges"] += op[0] == "age"
         if any(ob[0] == "iter" and ob[1] for ob in obs):
             seen.add(json.dumps(case["ops"]))
     return {"evaluations": len(cases), "distinct_nontrivial": len(seen),
-            "rule": "random op sequences (open/purge, send bursts up to 30, ageing around the retention, seeks at first/middle/next/purged/beyond, "
+            "rule": "random op sequences (open/purge, send bursts up to 30, sends in the middle of a consumer's iteration, ageing around the retention, the clock stepping back, seeks at first/middle/next/purged/beyond, "
                     "seekToBeginning, iterate) up to 120 ops on the real SQLite plugins with separate producer/consumer connections, plus every "
                     "sequence of length <=3 (quick) / <=5 (thorough) over an 8-op alphabet; non-trivial = at least one event delivered; distinct by op sequence",
             "samples": [{"ops": cases[0]["ops"], "observed": [list(map(str, o)) for o in res[0][0]]}],
